@@ -54,6 +54,23 @@ func main() {
 	flag.Parse()
 	repoRoot = *repo
 	started := time.Now()
+	debug.SetMemoryLimit(12 << 30)
+	// watchdog: an analysis that cannot finish is "undecided" and undecided = fail
+	time.AfterFunc(4*time.Minute, func() {
+		ids := *prop
+		fmt.Printf("%s/FATAL UNDECIDED: analysis did not finish within its time budget (4 min)\n", ids)
+		if !*noEvidence && *prop != "all" {
+			os.MkdirAll(filepath.Join(*evdir, "replay"), 0o755)
+			rp := filepath.Join(*evdir, "replay", ids+".txt")
+			os.WriteFile(rp, []byte("analysis budget exceeded\n"), 0o644)
+			ev := fmt.Sprintf(`{"property_id":%q,"tier":%q,"seed":0,"level":"other","coverage":{"explanation":"analysis did not finish within its time budget; treated as a failure (undecided = fail)","obligations":0,"discharged":0},"wall_s":240,"violations":1}`, ids, *tier)
+			os.WriteFile(filepath.Join(*evdir, ids+".json"), []byte(ev), 0o644)
+			fmt.Printf("VIOLATION property=%s replay=%s\n", ids, rp)
+		} else {
+			fmt.Printf("VIOLATION property=%s replay=-\n", ids)
+		}
+		os.Exit(1)
+	})
 
 	lc := LoadConfig{Repo: *repo, GOARCH: *goarch, Tags: *tags}
 	var v1, v2 *Prog
